@@ -6,7 +6,8 @@
 // I/O through lib/crashfs) is driven exactly the way Peer.handleReady drives it: per simulated
 // Ready SetHardState -> ApplySnapshot -> Append -> MaybeCompact, then a "messages sent" mark (from
 // that instant the peer has acted on the state). Readys are generated from a reference model of
-// the raft state: election (term+1, vote self), proposals (1 or 2 entries), a conflicting
+// the raft state: election (term+1, vote self), term raised without a vote, a vote granted in the
+// current term (vote-only change), commit-only change, proposals (1 or 2 entries), a conflicting
 // overwrite of the uncommitted suffix by a new leader (term+1), commit+compaction, snapshot
 // install; interleaved with the two things the DB does to the shared WAL (Sync, segment
 // switch). Every vfs crash point incl. torn writes is recovered with the real
@@ -20,7 +21,7 @@
 //
 // Oracle (property text): reopening succeeds; with S = state after the last Ready whose
 // messages were sent before the crash: term' >= S.term, vote' == S.vote when term' == S.term
-// (and S.vote != 0); the recovered log equals the log after some prefix of the storage calls
+// (and S.vote != 0), commit' >= S.commit; the recovered log equals the log after some prefix of the storage calls
 // made since S (every entry of S present, later overwrites winning, nothing invented), compared
 // above the truncation/snapshot index. After a clean close the state is recovered exactly.
 package main
@@ -141,6 +142,18 @@ func ready(op string, s mstate, step int) []call {
 	switch op {
 	case "elect": // candidate: term+1, vote for self -> MsgVote
 		return []call{{Kind: "hs", HS: myraft.HardState{Term: s.Term + 1, Vote: 1, Commit: s.Commit}}}
+	case "termup": // a higher-term non-vote message arrives: term+1, no vote cast -> response sent
+		return []call{{Kind: "hs", HS: myraft.HardState{Term: s.Term + 1, Vote: 0, Commit: s.Commit}}}
+	case "grant": // vote granted in the CURRENT term (vote-only hard-state change) -> MsgVoteResp
+		if s.Term == 0 || s.Vote != 0 {
+			return nil
+		}
+		return []call{{Kind: "hs", HS: myraft.HardState{Term: s.Term, Vote: 2, Commit: s.Commit}}}
+	case "commitonly": // commit index advances, nothing else (commit-only hard-state change)
+		if s.Last <= s.Commit {
+			return nil
+		}
+		return []call{{Kind: "hs", HS: myraft.HardState{Term: s.Term, Vote: s.Vote, Commit: s.Commit + 1}}}
 	case "prop": // leader appends one proposal -> MsgApp
 		if s.Term == 0 {
 			return nil
@@ -178,7 +191,10 @@ func ready(op string, s mstate, step int) []call {
 	return nil
 }
 
-var readyOps = []string{"elect", "prop", "ovw", "commit", "prop2", "snap"}
+// readyAll is the full alphabet; readyCore drops the two kinds that add length but no new kind of
+// hard-state/log change (prop2, commitonly) and is used for the deepest level.
+var readyAll = []string{"elect", "termup", "grant", "prop", "ovw", "commit", "commitonly", "prop2", "snap"}
+var readyCore = []string{"elect", "termup", "grant", "prop", "ovw", "commit", "snap"}
 var extOps = []string{"walsync", "rotate"}
 
 // ---------- configurations ----------
@@ -551,6 +567,8 @@ func (rn *runner) run(h Hist) {
 			kind = "term-went-back"
 		case r.Term == S.Term && S.Vote != 0 && r.Vote != S.Vote:
 			kind = "vote-changed"
+		case r.Commit < S.Commit:
+			kind = "commit-went-back"
 		default:
 			ok := false
 			for _, t := range allowed {
@@ -584,7 +602,7 @@ func cfgClass(c Cfg) string {
 	return "buffered"
 }
 
-func enumerate(depth int, fn func(ops []string)) {
+func enumerate(readyOps []string, depth int, fn func(ops []string)) {
 	var rec func(path []string, s mstate)
 	rec = func(path []string, s mstate) {
 		if len(path) > 0 {
@@ -633,23 +651,38 @@ func main() {
 		}
 		r.Finish(vr.Coverage{Level: "fault_enumeration", Evaluations: p.Counters["points"], Distinct: 2, Rule: "replay of one history", Samples: []any{h.String()}})
 	}
-	depth := r.Pick(4, 6)
+	type plan struct {
+		Ops   []string
+		Depth int
+	}
+	plans := []plan{{readyAll, 3}, {readyCore, 4}}
+	if r.Thorough() {
+		plans = []plan{{readyAll, 5}, {readyCore, 6}}
+	}
 	total := r.RunSharded(vr.Workers(), func(sh vr.ShardInfo, p *vr.Partial) {
 		rn := &runner{base: r.Scratch(), cache: map[string]recovered{}, p: p}
 		item := 0
-		enumerate(depth, func(ops []string) {
-			item++
-			if !sh.Owns(int(vr.Hash64(strings.Join(ops[:min(len(ops), depth-2)], " "))%1000003)) || r.Expired() {
-				return
-			}
-			for _, c := range cfgs {
-				h := Hist{Cfg: c.Name, Ops: ops, Part: "A"}
-				rn.run(h)
-				if item%131 == 0 {
-					p.Sample(h.String())
+		seen := map[string]bool{}
+		for _, pl := range plans {
+			enumerate(pl.Ops, pl.Depth, func(ops []string) {
+				key := strings.Join(ops, " ")
+				if seen[key] {
+					return
 				}
-			}
-		})
+				seen[key] = true
+				item++
+				if !sh.Owns(int(vr.Hash64(strings.Join(ops[:min(len(ops), max(pl.Depth-2, 1))], " "))%1000003)) || r.Expired() {
+					return
+				}
+				for _, c := range cfgs {
+					h := Hist{Cfg: c.Name, Ops: ops, Part: "A"}
+					rn.run(h)
+					if item%131 == 0 {
+						p.Sample(h.String())
+					}
+				}
+			})
+		}
 		for i, sc := range peerScripts {
 			if !sh.Owns(i) || r.Expired() {
 				continue
@@ -663,15 +696,19 @@ func main() {
 	})
 	out := total.Card("outcomes")
 	r.RequireOutcomes(out, 6)
+	var planDesc []string
+	for _, pl := range plans {
+		planDesc = append(planDesc, fmt.Sprintf("ready kinds %v + %v, depth<=%d", pl.Ops, extOps, pl.Depth))
+	}
 	r.Finish(vr.Coverage{
 		Level:       "fault_enumeration",
 		Evaluations: total.Counters["points"] + total.Counters["peer_points"],
 		Distinct:    total.Counters["nontrivial"],
-		Rule:        "A: every sequence (bounded depth) of model-generated Readys {elect, prop, prop2, conflicting overwrite by a new leader, commit+compact, snapshot} and shared-WAL events {Sync, segment switch}, applied to the real WALStorage in handleReady order with a 'messages sent' mark after each Ready, under 3 WAL configurations; every vfs crash point incl. torn writes recovered with manifest.Verify/Open + wal.VerifyDir/Open + OpenWALStorage; plus exact comparison after a clean close. B: real Peer scripts with an image inside every transport.Send. distinct_nontrivial = accepted recoveries from torn-write images or images lacking WAL bytes the manager had accepted",
+		Rule:        "A: every sequence (bounded depth) of model-generated Readys {elect (term+vote), term-up without vote, vote grant in the current term, prop, prop2, conflicting overwrite by a new leader, commit+compact, commit-only, snapshot} and shared-WAL events {Sync, segment switch}, applied to the real WALStorage in handleReady order with a 'messages sent' mark after each Ready, under 3 WAL configurations; every vfs crash point incl. torn writes recovered with manifest.Verify/Open + wal.VerifyDir/Open + OpenWALStorage; plus exact comparison after a clean close. B: real Peer scripts with an image inside every transport.Send. distinct_nontrivial = accepted recoveries from torn-write images or images lacking WAL bytes the manager had accepted",
 		Samples:     total.SamplesAny(),
 		Exhaustive:  !total.TimedOut,
 		Outcomes:    out,
-		Bounds:      map[string]any{"depth": depth, "ready_kinds": readyOps, "external_ops": extOps, "wal_configs": []string{"buffered(default bufio)", "buffered(64-byte bufio)", "SyncOnWrite"}, "peer_scripts": len(peerScripts)},
+		Bounds:      map[string]any{"plans": planDesc, "ready_kinds": readyAll, "external_ops": extOps, "wal_configs": []string{"buffered(default bufio)", "buffered(64-byte bufio)", "SyncOnWrite"}, "peer_scripts": len(peerScripts)},
 		Extra: map[string]any{"histories": total.Counters["histories"], "distinct_image_recoveries": total.Counters["recoveries"], "shared_recoveries": total.Counters["cache_hits"],
 			"max_points_per_history": total.Counters["max_points"], "point_classes": total.Card("point_classes"), "peer_sends_checked": total.Counters["peer_points"]},
 		Assumptions: []string{"process-crash model: completed write(2)s survive, bufio contents are lost", "the Ready sequences come from a reference model of raft state, not from etcd raft itself (part B uses the real RawNode)",
